@@ -54,6 +54,7 @@ PROPS["C14"] = {
     "legs": [
         Leg("grid", "c14", "^TestGrid$", engine="enumerate", rapid=False, shards=(1, 1), tests=["grid"]),
         Leg("random", "c14", "^TestRandom$", checks=(200000, 2000000), shards=(2, 16), tests=["random"]),
+        Leg("fuzz-bits", "c14", "", engine="native-fuzz", fuzz="FuzzBits", fuzztime=60, tiers=("thorough",)),
     ],
 }
 
@@ -76,6 +77,8 @@ PROPS["C07"] = {
         Leg("sweep", "c07", "^TestSweep$", engine="enumerate", rapid=False, shards=(8, 16), tests=["sweep"]),
         Leg("frame", "c07", "^TestFrame$", checks=(20000, 60000), shards=(2, 16), tests=["frame"]),
         Leg("stream", "c07", "^TestStream$", checks=(3000, 20000), shards=(2, 16), tests=["stream"]),
+        Leg("fuzz-typed-frame", "c07", "", engine="native-fuzz", fuzz="FuzzTypedFrame", fuzztime=90, tiers=("thorough",)),
+        Leg("fuzz-raw-stream", "c07", "", engine="native-fuzz", fuzz="FuzzRawStream", fuzztime=60, tiers=("thorough",)),
     ],
 }
 
@@ -206,6 +209,7 @@ PROPS["C04"] = {
     "min_evals": {"quick": 5000, "thorough": 300000},
     "legs": [
         Leg("message", "c04", "^TestMessage$", checks=(4000, 40000), shards=(2, 16), tests=["message"]),
+        Leg("fuzz-message", "c04", "", engine="native-fuzz", fuzz="FuzzMessage", fuzztime=90, tiers=("thorough",)),
     ],
 }
 
